@@ -586,3 +586,185 @@ theorem timedCall_eq_find {T n : Int} (hT : 0 < T) (m : α → Bool) (arr : List
   answer_refines hT m quiescent arr H ho hb
 
 end Dhcp.Client.Refine
+
+/-
+  Layer 2 of the timed model (`runCall`: the SET of results a script of
+  external events allows, the function whose output the client4/client6
+  correspondence streams compare with the real clients) for scripts that only
+  inject datagrams.
+-/
+namespace Dhcp.Client.Refine
+open Dhcp.Client.Timed
+
+/-! ### the groups of a script, flattened, are `scriptObs` -/
+
+theorem groupsAux_flatten : ∀ (es : List Event) (clk : Int) (i : Nat) (cur : Option (Int × Bool × Group)),
+    (∀ c, cur = some c → c.1 = clk) →
+    (groupsAux clk i es cur).flatMap viewOf =
+      (match cur with | some c => viewOf c | none => []) ++ scriptObsFrom clk i es := by
+  intro es
+  induction es with
+  | nil => intro clk i cur _; cases cur <;> simp [groupsAux, scriptObsFrom]
+  | cons e es ih =>
+    intro clk i cur hc
+    unfold groupsAux
+    cases cur with
+    | none =>
+      simp only
+      rw [ih _ _ _ (by intro c h; injection h with h; subst h; rfl)]
+      simp [viewOf, toObs, scriptObsFrom]
+    | some c =>
+      obtain ⟨tg, r, gg⟩ := c
+      have htg : tg = clk := hc _ rfl
+      by_cases hf : (e.sync || decide (e.t > clk)) = true
+      · simp only [hf]
+        rw [List.flatMap_cons, ih _ _ _ (by intro c h; injection h with h; subst h; rfl)]
+        simp [viewOf, toObs, scriptObsFrom]
+      · have hf' : (e.sync || decide (e.t > clk)) = false := by simpa using hf
+        simp only [hf']
+        have hle : max e.t clk = clk := by
+          simp at hf'; omega
+        rw [ih _ _ _ (by intro c h; injection h with h; subst h; simp [hle, htg])]
+        simp [viewOf, toObs, scriptObsFrom, hle, htg]
+
+theorem groups_flatten (evs : List Event) : (groups evs).flatMap viewOf = scriptObs evs := by
+  unfold groups scriptObs
+  rw [groupsAux_flatten evs 0 0 none (by intro c h; cases h)]
+  rfl
+
+theorem scriptObsFrom_lb (clk : Int) (i : Nat) (es : List Event) : ∀ o ∈ scriptObsFrom clk i es, clk ≤ o.t := by
+  induction es generalizing clk i with
+  | nil => intro o h; simp [scriptObsFrom] at h
+  | cons e es ih =>
+    intro o h
+    simp only [scriptObsFrom, List.mem_cons] at h
+    rcases h with rfl | h
+    · exact Int.le_max_right _ _
+    · have := ih _ _ o h
+      have := Int.le_max_right e.t clk
+      omega
+
+theorem scriptObsFrom_pairwise (clk : Int) (i : Nat) (es : List Event) :
+    (scriptObsFrom clk i es).Pairwise (fun a b => a.t ≤ b.t) := by
+  induction es generalizing clk i with
+  | nil => simp [scriptObsFrom]
+  | cons e es ih =>
+    simp only [scriptObsFrom]
+    rw [List.pairwise_cons]
+    exact ⟨fun o ho => scriptObsFrom_lb _ _ es o ho, ih _ _⟩
+
+theorem scriptObs_ordered (evs : List Event) : OrderedObs (scriptObs evs) :=
+  ⟨fun o ho => scriptObsFrom_lb 0 0 evs o ho, scriptObsFrom_pairwise 0 0 evs⟩
+
+/-- the script of a routed stream in time order is observed as the stream's
+observation sequence (all at quiescence) -/
+theorem scriptObsFrom_scriptOf {α : Type} (m : α → Bool) (arr : List (Int × α)) (clk : Int) (i : Nat)
+    (hlb : ∀ a ∈ arr, clk ≤ a.1) (hs : arr.Pairwise (fun a b => a.1 ≤ b.1)) :
+    scriptObsFrom clk i (scriptOf m arr) = obsFrom m quiescent i arr := by
+  induction arr generalizing clk i with
+  | nil => rfl
+  | cons a arr ih =>
+    have h1 : max a.1 clk = a.1 := Int.max_eq_left (hlb a (List.mem_cons_self ..))
+    rw [List.pairwise_cons] at hs
+    simp only [scriptOf, List.map_cons, scriptObsFrom, obsFrom, h1]
+    have := ih a.1 (i + 1) hs.1 hs.2
+    simp only [scriptOf] at this
+    rw [this]
+    congr 1
+    cases hm : m a.2 <;> simp [kindOf, obsKind, hm, quiescent]
+
+theorem scriptObs_scriptOf {α : Type} (m : α → Bool) (arr : List (Int × α)) (ho : Ordered arr) :
+    scriptObs (scriptOf m arr) = obsOf m quiescent arr :=
+  scriptObsFrom_scriptOf m arr 0 0 ho.1 ho.2
+
+/-! ### groups of an arrivals-only script -/
+
+theorem groupsAux_forall (P : EvKind → Prop) : ∀ (es : List Event) (clk : Int) (i : Nat)
+    (cur : Option (Int × Bool × Group)),
+    (∀ e ∈ es, P e.kind) → (∀ c, cur = some c → ∀ x ∈ c.2.2, P x.2) →
+    ∀ g ∈ groupsAux clk i es cur, ∀ x ∈ g.2.2, P x.2 := by
+  intro es
+  induction es with
+  | nil =>
+    intro clk i cur _ hc g hg
+    cases cur with
+    | none => simp [groupsAux] at hg
+    | some c0 => simp [groupsAux] at hg; subst hg; exact hc _ rfl
+  | cons e es ih =>
+    intro clk i cur hq hc g hg
+    have hqe := hq e (List.mem_cons_self ..)
+    have hqes : ∀ e' ∈ es, P e'.kind := fun e' he' => hq e' (List.mem_cons_of_mem _ he')
+    have single : ∀ x ∈ [(i, e.kind)], P x.2 := by
+      intro x hx; simp at hx; subst hx; exact hqe
+    unfold groupsAux at hg
+    cases cur with
+    | none =>
+      simp only at hg
+      exact ih _ _ _ hqes (by intro c hc'; injection hc' with hc'; subst hc'; exact single) g hg
+    | some c =>
+      obtain ⟨tg, r, gg⟩ := c
+      by_cases hf : (e.sync || decide (e.t > clk)) = true
+      · simp only [hf] at hg
+        simp only [List.mem_cons] at hg
+        rcases hg with rfl | hg
+        · exact hc _ rfl
+        · exact ih _ _ _ hqes (by intro c hc'; injection hc' with hc'; subst hc'; exact single) g hg
+      · have hf' : (e.sync || decide (e.t > clk)) = false := by simpa using hf
+        simp only [hf'] at hg
+        refine ih _ _ _ hqes ?_ g hg
+        intro c hc'; injection hc' with hc'; subst hc'
+        intro x hx
+        rcases List.mem_append.1 hx with h | h
+        · exact hc _ rfl x h
+        · exact single x h
+
+/-- every group of an arrivals-only script consists of arrivals -/
+theorem groups_arrivals (evs : List Event) (h : ArrivalsOnly evs) :
+    ∀ g ∈ groups evs, ∀ x ∈ g.2.2, isArrival x.2 = true :=
+  groupsAux_forall (fun k => isArrival k = true) evs 0 0 none h (by intro c hc; cases hc)
+
+/-- a script whose events are all applied at quiescence has no racing group -/
+theorem groupsAux_sync : ∀ (es : List Event) (clk : Int) (i : Nat) (cur : Option (Int × Bool × Group)),
+    (∀ e ∈ es, e.sync = true) → (∀ c, cur = some c → c.2.1 = false) →
+    ∀ g ∈ groupsAux clk i es cur, g.2.1 = false := by
+  intro es
+  induction es with
+  | nil =>
+    intro clk i cur _ hc g hg
+    cases cur with
+    | none => simp [groupsAux] at hg
+    | some c0 => simp [groupsAux] at hg; subst hg; exact hc _ rfl
+  | cons e es ih =>
+    intro clk i cur hq hc g hg
+    have hqe := hq e (List.mem_cons_self ..)
+    have hqes : ∀ e' ∈ es, e'.sync = true := fun e' he' => hq e' (List.mem_cons_of_mem _ he')
+    unfold groupsAux at hg
+    cases cur with
+    | none =>
+      simp only at hg
+      exact ih _ _ _ hqes (by intro c hc'; injection hc' with hc'; subst hc'; simp [hqe]) g hg
+    | some c =>
+      obtain ⟨tg, r, gg⟩ := c
+      simp only [hqe, Bool.true_or] at hg
+      simp only [List.mem_cons] at hg
+      rcases hg with rfl | hg
+      · exact hc _ rfl
+      · exact ih _ _ _ hqes (by intro c hc'; injection hc' with hc'; subst hc'; simp) g hg
+
+theorem groups_sync (evs : List Event) (h : ∀ e ∈ evs, e.sync = true) : ∀ g ∈ groups evs, g.2.1 = false :=
+  groupsAux_sync evs 0 0 none h (by intro c hc; cases hc)
+
+/-- a group of arrivals has one merge order: itself -/
+theorem mergeOrders_arrivals (g : Group) (h : ∀ x ∈ g, isArrival x.2 = true) : mergeOrders g = [g] := by
+  have hc : ∀ k, (k = EvKind.cancel ∨ k = EvKind.close) → g.find? (fun e => e.2 = k) = none := by
+    intro k hk
+    rw [List.find?_eq_none]
+    intro e he
+    have := h e he
+    rcases hk with rfl | rfl <;> (intro hk'; simp at hk'; rw [hk'] at this; simp [isArrival] at this)
+  unfold mergeOrders
+  rw [hc _ (Or.inl rfl), hc _ (Or.inr rfl)]
+  simp only
+  rw [List.filter_eq_self.2 (fun x hx => h x hx)]
+
+end Dhcp.Client.Refine
